@@ -442,7 +442,13 @@ CATCH_ALL
   ')
 
 m4_define(`m4_ub_exact_for_polyhedron_domains',
-` if (Interfaces::is_necessarily_closed_for_interfaces(*to_const(x))) {
+` // The handles do not carry the topology: check it before casting `y'.
+  if (Interfaces::is_necessarily_closed_for_interfaces(*to_const(x))
+      != Interfaces::is_necessarily_closed_for_interfaces(*to_const(y))) {
+    throw std::invalid_argument("ppl_Polyhedron_@UB_EXACT@(x, y): "
+                                "x and y are topology-incompatible.");
+  }
+  if (Interfaces::is_necessarily_closed_for_interfaces(*to_const(x))) {
     C_Polyhedron& xx = static_cast<C_Polyhedron&>(*to_nonconst(x));
     const C_Polyhedron& yy = static_cast<const C_Polyhedron&>(*to_const(y));
     return xx.upper_bound_assign_if_exact(yy) ? 1 : 0;
